@@ -12,6 +12,9 @@ CHECKS = {
  "C20": ("exhaustive enumeration of all strings up to K atoms over an 8-atom alphabet x widths 0..8 x {plain, styled}, alignment-relation oracle + independent width function",
          "Every string of <=6 (quick) / <=7 (thorough) atoms over {a, bb, space, newline, wide char, combining mark, two ANSI sequences} is wrapped by the real textwrap::wrap (via {author}) and StyledStr::wrap (via {about}) at every width 0..8 and compared with the alignment relation (only whole runs of spaces become a break + the line's indent; everything else byte-identical and in order) and, for plain text, the width bound with an independent width function. Exhaustive within alphabet, length and width bounds.",
          "Trusted: the alignment relation and width function in checks/src/bin/c20.rs; access through help templates <{author}> / <{about}> (sentinels verified by a self-test on every run).", "DESIGN.md §4 C20"),
+ "C01": ("exhaustive enumeration of configuration deviations (iterative deviation bounding) x argv prefix tree over a config-derived token alphabet, on the real parser under a process-isolating supervisor",
+         "Every dev(d) configuration (base + all sets of <=d of ~70 single-feature deviations) that clap's own debug-assert gate accepts x every argv in A(cfg)^<=L, each parsed plain and with ignore_errors: quick (d<=1,L<=3)+(d=2,L<=2), thorough (d<=1,L<=4)+(d=2,L<=3)+(d=3,L<=2). Oracle: returns (unwinds caught; aborts/stalls isolated by a supervisor with per-case journal), errors render, ignore_errors yields Ok unless an explicit help/version request. Safety property explored directly on the implementation; no model involved.",
+         "Trusted: the deviation catalogue and alphabet (mc/model/src/dev.rs) as the definition of the explored space; debug-assertion profile. Defects needing >d simultaneous deviations, longer argv or features outside the catalogue are not seen.", "DESIGN.md §4 C01"),
 }
 PENDING_REASON = "check not built yet in this round (design in DESIGN.md §4); will be claimed when its checker exists"
 props = [json.loads(l) for l in open('/verif/properties.jsonl')]
